@@ -929,6 +929,7 @@ MODELS = [
     (r'as Fn<.*>>::call$|as FnMut<.*>>::call_mut$|as FnOnce<.*>>::call_once$', m_fn_call),
     (r'(^|::)from_utf8$', m_from_utf8),
     (r'(^|::)str::<impl str>::as_bytes$', m_str_as_bytes),
+    (r'(^|::)str::<impl str>::as_ptr$', m_as_ptr),
     (r'(^|::)str::<impl str>::len$', m_str_len),
     (r'fmt::Arguments|Arguments::<.*>::new', m_unit),
     (r'(^|::)hint::black_box', m_identity),
